@@ -365,43 +365,22 @@ func c02Collect(c *Ctx, p *Prog, fn *ssa.Function, parsers []*parserInfo) {
 			calls = append(calls, call)
 		}
 	})
-	counted := map[*ssa.Call]bool{}
-	var counter ssa.Value
-	eachInstr(fn, func(in ssa.Instruction) {
-		bo, ok := in.(*ssa.BinOp)
-		if !ok || bo.Op != token.ADD {
-			return
-		}
-		if k, ok := constInt(bo.Y); !ok || k != 1 {
-			return
-		}
-		if b, ok := bo.Type().Underlying().(*types.Basic); !ok || b.Kind() != types.Int {
-			return
-		}
-		for _, g := range rawGuardsAt(bo.Block()) {
-			if ex, ok := g.Cond.(*ssa.Extract); ok && g.Positive && ex.Index == 0 {
-				if call, ok := ex.Tuple.(*ssa.Call); ok && isParser[staticCallee(&call.Call)] {
-					// the innermost such guard must be the parser whose else-branch we are in:
-					// take the call that is latest in dominance order
-					counted[call] = true
-					counter = bo
-				}
-			}
-		}
-	})
-	_ = counter
+	ind, counted := pendingIndicator(fn, isParser)
 	for _, call := range calls {
 		nm := staticCallee(&call.Call).Name()
-		c.Check(counted[call], "C02-R8", "collect:"+nm+":partial-counted", p.pos(call.Pos()), "an increment of the partial counter is control-dependent on this parser's partial result")
+		c.Check(counted[call], "C02-R8", "collect:"+nm+":partial-counted", p.pos(call.Pos()), "the pending indicator is raised (incremented / set) under this parser's partial result")
 	}
-	// the gate: a test `== 0` on the counter guards the raw delivery, together with expire
+	// the gate: a test of the indicator ("nothing pending") guards the raw delivery, together with expire
 	gate := false
-	for a := range atomsOf(fn) {
-		if strings.HasSuffix(a, "== 0") && strings.Contains(a, "partials") {
+	for _, b := range fn.Blocks {
+		if len(b.Instrs) == 0 {
+			continue
+		}
+		if iff, ok := b.Instrs[len(b.Instrs)-1].(*ssa.If); ok && testsIndicator(iff.Cond, ind) {
 			gate = true
 		}
 	}
-	c.Check(gate, "C02-R8", "collect:gate", p.pos(fn.Pos()), "raw delivery is gated by partials == 0 (or expire)")
+	c.Check(gate, "C02-R8", "collect:gate", p.pos(fn.Pos()), "raw delivery is gated by the pending indicator (nothing pending, or expire)")
 }
 
 // c02Index: R7 on one function.
@@ -552,4 +531,108 @@ func callersGuardNonEmpty(p *Prog, fn *ssa.Function) bool {
 		})
 	}
 	return ok && n > 0
+}
+
+// pendingIndicator finds, by role, the variable with which the collect loop remembers that some parser
+// answered "partial" in this cycle: an int that is incremented or a bool that is set, in a block that is
+// control-dependent on a parser's partial result.  It returns every SSA value that carries the
+// indicator (the increments / the phis that merge them) and the parser calls that raise it.
+func pendingIndicator(fn *ssa.Function, isParser map[*ssa.Function]bool) (map[ssa.Value]bool, map[*ssa.Call]bool) {
+	ind := map[ssa.Value]bool{}
+	counted := map[*ssa.Call]bool{}
+	partialOf := func(b *ssa.BasicBlock) *ssa.Call {
+		var out *ssa.Call
+		for _, g := range rawGuardsAt(b) {
+			if ex, ok := g.Cond.(*ssa.Extract); ok && g.Positive && ex.Index == 0 {
+				if call, ok := ex.Tuple.(*ssa.Call); ok && isParser[staticCallee(&call.Call)] {
+					out = call
+				}
+			}
+		}
+		return out
+	}
+	eachInstr(fn, func(in ssa.Instruction) {
+		switch x := in.(type) {
+		case *ssa.BinOp: // partials++
+			if x.Op != token.ADD {
+				return
+			}
+			if k, ok := constInt(x.Y); !ok || k != 1 {
+				return
+			}
+			if call := partialOf(x.Block()); call != nil {
+				counted[call] = true
+				ind[x] = true
+			}
+		case *ssa.Phi: // pending = true
+			if b, ok := x.Type().Underlying().(*types.Basic); !ok || b.Kind() != types.Bool || x.Comment == "&&" || x.Comment == "||" {
+				return
+			}
+			for i, e := range x.Edges {
+				if v, isB := constBool(e); isB && v {
+					pred := x.Block().Preds[i]
+					call := partialOf(pred)
+					if call == nil && len(pred.Instrs) > 0 {
+						// the edge may come straight from the test of the partial result
+						if iff, isIf := pred.Instrs[len(pred.Instrs)-1].(*ssa.If); isIf && pred.Succs[0] == x.Block() {
+							if ex, okE := iff.Cond.(*ssa.Extract); okE && ex.Index == 0 {
+								if cl, okC := ex.Tuple.(*ssa.Call); okC && isParser[staticCallee(&cl.Call)] {
+									call = cl
+								}
+							}
+						}
+					}
+					if call != nil {
+						counted[call] = true
+						ind[x] = true
+					}
+				}
+			}
+		}
+	})
+	// close over the phis that merge indicator values
+	for changed := true; changed; {
+		changed = false
+		eachInstr(fn, func(in ssa.Instruction) {
+			phi, ok := in.(*ssa.Phi)
+			if !ok || ind[phi] {
+				return
+			}
+			for _, e := range phi.Edges {
+				if ind[e] {
+					ind[phi] = true
+					changed = true
+				}
+			}
+		})
+	}
+	return ind, counted
+}
+
+// testsIndicator: cond asks whether anything is pending (ind == 0, ind != 0, ind, !ind, or a short-circuit
+// combination containing such a test).
+func testsIndicator(cond ssa.Value, ind map[ssa.Value]bool) bool {
+	for _, g := range expandCond(cond, true, 0) {
+		v, _ := condKey(g.Cond)
+		if ind[v] {
+			return true
+		}
+		if bo, ok := v.(*ssa.BinOp); ok && (bo.Op == token.EQL || bo.Op == token.NEQ || bo.Op == token.GTR) && ind[bo.X] {
+			if k, isK := constInt(bo.Y); isK && k == 0 {
+				return true
+			}
+		}
+	}
+	for _, g := range expandCond(cond, false, 0) {
+		v, _ := condKey(g.Cond)
+		if ind[v] {
+			return true
+		}
+		if bo, ok := v.(*ssa.BinOp); ok && (bo.Op == token.EQL || bo.Op == token.NEQ || bo.Op == token.GTR) && ind[bo.X] {
+			if k, isK := constInt(bo.Y); isK && k == 0 {
+				return true
+			}
+		}
+	}
+	return false
 }
